@@ -148,6 +148,25 @@ def handler_family(depth):
     return out
 
 
+def sweep_family(nret, heights, few_apis=False):
+    """Height sweep across the first registry growth (RegistrySize 128): at every
+    height a NON-vararg Lua callee with 4 named parameters and 10 registers gets
+    0..3 arguments through every call API; missing parameters come back as its
+    results and must be nil; the list laws must hold afterwards."""
+    out = []
+    follow = [{"op": "gettop"}, {"op": "get", "i": -1}, {"op": "push", "v": ["n", 13]}, {"op": "insert", "v": ["n", 14], "i": 1},
+              {"op": "remove", "i": -2}, {"op": "settop", "i": 2}, {"op": "pop", "n": 1}]
+    for k in heights:
+        for nargs in range(4):
+            args = [["n", 15 + j] for j in range(nargs)]
+            for prot in (False, True):
+                for apisel in ((range(4) if prot else range(2)) if not few_apis else ((0, 2) if prot else (0,))):
+                    out.append([{"op": "prefill", "k": k}, {"op": "push", "v": ["n", 11]},
+                                {"op": "callL", "prot": prot, "args": args, "nret": nret, "p": 4, "fail": False,
+                                 "shape": "params4", "apisel": apisel}] + follow)
+    return out
+
+
 def idx_class(ev, n=None):
     i = ev["i"]
     if i == 0:
@@ -177,6 +196,9 @@ def stack_key(tr, v):
     if why == "outside-read":
         bad = [PROBES[k] for k, p in enumerate(ev.get("probe", [])) if p != ["nil"]]
         return "C10:stack:outside-read:%s" % (bad[0] if bad else "?")
+    if why == "list" and ["gonil"] in ev.get("list", []):
+        # a Go nil interface where a Lua value (LNil) must be: its own class, whatever the operation's result otherwise is
+        return "C10:stack:go-nil-value:%s" % op
     if why in ("negative-read", "gettop", "hole"):
         return "C10:stack:%s" % why
     if why == "read":
@@ -225,7 +247,10 @@ class StackBatch:
         inp = os.path.join(sd, "hist_%s.json" % tag)
         outp = os.path.join(sd, "traces_%s.ndjson" % tag)
         with open(inp, "w") as f:
-            json.dump(dict(cfg, H=[{"id": first_id + i, "h": h} for i, h in enumerate(hists)]), f)
+            # a leading pseudo-operation {"op": "prefill", "k": n} fixes the number of top-level values
+            # below the layers for that history (height sweep); it is not an operation of the history
+            json.dump(dict(cfg, H=[({"id": first_id + i, "h": h[1:], "prefill": h[0]["k"]} if h and h[0]["op"] == "prefill"
+                                    else {"id": first_id + i, "h": h}) for i, h in enumerate(hists)]), f)
         vlib.run_harness(["c10-stack", "--in", inp, "--out", outp], timeout=900)
         recs = vlib.read_ndjson(open(outp).read())
         os.remove(inp)
@@ -299,7 +324,7 @@ def consts(**kw):
 def stack_part(tier, verd, stats, ev):
     from concurrent.futures import ThreadPoolExecutor
     thorough = tier == "thorough"
-    nsim = 3000 if thorough else 600
+    nsim = 3000 if thorough else 400
     simc = {"MaxLen": "6", "Cap0": "5", "GrowBy": "1", "MaxDepth": "4", "MaxHist": "40", "Base0": "3",
             "Ind": "FALSE", "Slacks": "{100}"}
     W = TLCW if thorough else 4
@@ -355,19 +380,29 @@ def stack_part(tier, verd, stats, ev):
     for d in (1, 2, 3):
         fam += [close_history(h) for h in handler_family(d)]
     sets.append(("calls", fam))
+    # height sweep for calls whose frame set-up grows the registry (grow steps 1, 7, 32)
+    # (callee LocalBase = prefill + 15 under one Lua layer, + 27 under two: the window where
+    # LocalBase+4 <= 128 < LocalBase+10 lies inside the swept range, with margin on both sides)
+    sets.append(("sweep", sweep_family(-1, range(96, 125)) + sweep_family(4, range(96, 125))))
+    sets.append(("sweep7", sweep_family(-1, range(96, 125), few_apis=not thorough)))
+    sets.append(("sweep32", sweep_family(4, range(82, 113), few_apis=not thorough)))
     vlib.log("[C10] histories: " + ", ".join("%s %d" % (n, len(h)) for n, h in sets))
     cfgs = {"nested": {"mode": "nested", "grow": False, "depth0": 1, "gap": 0},
             "nested2": {"mode": "nested", "grow": False, "depth0": 2, "gap": 0, "autostack": True},
             "grow": {"mode": "nested", "grow": True, "depth0": 1, "gap": 14, "fresh": True},
             "top": {"mode": "top", "grow": False, "depth0": 0, "gap": 0},
             # the layers and the root run inside a coroutine (its own register file)
-            "co": {"mode": "co", "grow": False, "depth0": 2, "gap": 0}}
+            "co": {"mode": "co", "grow": False, "depth0": 2, "gap": 0},
+            "grow1": {"mode": "nested", "grow": True, "depth0": 1, "gap": 14, "fresh": True, "growstep": 1},
+            "grow7": {"mode": "nested", "grow": True, "depth0": 1, "gap": 14, "fresh": True, "growstep": 7},
+            "grow32": {"mode": "nested", "grow": True, "depth0": 2, "gap": 14, "fresh": True, "growstep": 32}}
     # quick: every set under the nested configuration or at top level, samples under the others
-    plan = {"ind": ["nested", "grow/3", "co/4"], "bfs": ["top", "nested2/3"], "sim": ["nested", "nested2", "grow", "top", "co"],
-            "calls": ["nested", "grow/4", "top/2", "co/3"]}
+    plan = {"ind": ["nested", "grow/4", "co/6"], "bfs": ["top/2", "nested2/3"], "sim": ["nested", "nested2", "grow", "top", "co"],
+            "calls": ["nested", "grow/4", "top/3", "co/4"]}
     if thorough:
         plan = {"ind": ["nested", "grow/8", "top/4", "co/8"], "bfs": ["nested/3", "top/2", "nested2/4", "grow/8", "co/8"],
                 "sim": ["nested", "nested2", "grow", "top", "co"], "calls": ["nested", "nested2", "grow", "top", "co"]}
+    plan.update({"sweep": ["grow1"], "sweep7": ["grow7"], "sweep32": ["grow32"]})
     sb = StackBatch()
     distinct = set()
     samples = []
@@ -474,6 +509,18 @@ def make_world(variant=1):
         add("MM_" + nm, "tab", [[S("__metatable"), val], [S("__index"), T("plain")]])
         add("mm_" + nm, "tab", mt=names["MM_" + nm])
         add("um_" + nm, "ud", mt=names["MM_" + nm])
+    # __index / __newindex chains of TABLES of depth 1..3 whose last link is a FUNCTION: the handler
+    # must get the table whose metatable holds it (not the original receiver); hSelf returns its self
+    add("MR", "tab", [[S("__index"), H("hSelf")], [S("__newindex"), H("hNewA")]])
+    add("r1", "tab", mt=names["MR"])
+    for i, prev in ((2, "r1"), (3, "r2")):
+        add("MR%d" % i, "tab", [[S("__index"), T(prev)], [S("__newindex"), T(prev)]])
+        add("r%d" % i, "tab", mt=names["MR%d" % i])
+    add("ur2", "ud", mt=names["MR2"])
+    add("ur3", "ud", mt=names["MR3"])
+    for i, prev in ((2, "a2"), (3, "p2")):
+        add("MP%d" % i, "tab", [[S("__index"), T(prev)], [S("__newindex"), T(prev)]])
+        add("p%d" % i, "tab", [[S("own"), ["n", i]]], mt=names["MP%d" % i])
     # userdata
     add("ua1", "ud", mt=names["MA"])
     add("ue1", "ud", mt=names["ME"])
@@ -487,13 +534,13 @@ def make_world(variant=1):
     ret = [["hIdxA", S("IDX")], ["hNewA", S("ignored")], ["hEqA", ["n", 0]], ["hLtA", NIL], ["hLeA", ["b", True]],
            ["hCatA", S("CAT")], ["hLenA", ["n", 5]], ["hStrA", S("STR")],
            ["hEqB", ["b", False]], ["hLtB", S("yes")], ["hCatB", ["n", 7]], ["hLenB", S("7")],
-           ["hStrC", ["n", 42]], ["hCatD", T("a1")], ["hIdxG", S("GIDX")], ["hNewG", NIL], ["hRaise", ["raise"]]]
+           ["hStrC", ["n", 42]], ["hCatD", T("a1")], ["hIdxG", S("GIDX")], ["hNewG", NIL], ["hRaise", ["raise"]], ["hSelf", ["arg", 1]]]
     if variant == 2:
         ret = [["hIdxA", NIL], ["hNewA", NIL], ["hEqA", NIL], ["hLtA", ["n", 1]], ["hLeA", NIL],
                ["hCatA", ["n", 3]], ["hLenA", ["n", 0]], ["hStrA", T("a2")],
                ["hEqB", S("")], ["hLtB", ["b", False]], ["hCatB", S("")], ["hLenB", ["n", -1]],
                ["hStrC", S("locked-object")], ["hCatD", U("ua1")], ["hIdxG", ["b", False]], ["hNewG", S("x")],
-               ["hRaise", ["raise"]]]
+               ["hRaise", ["raise"]], ["hSelf", ["arg", 1]]]
     return {"heap": heap, "ret": ret, "G": G, "smt": names["smt"]}, names
 
 
@@ -503,6 +550,7 @@ def obj_cases(world, names, tier, rng, w=1, cases=None):
     objs = []
     for n in ("plain", "list", "empty", "a1", "a2", "b1", "c1", "d1", "loop", "MA", "e1", "e2", "n1", "s1"):
         objs.append(["t", names[n]])
+    chain = [["t", names[n]] for n in ("r1", "r2", "r3", "p2", "p3")] + [["u", names[n]] for n in ("ur2", "ur3")]
     for n in ("ua1", "ua2", "ub1", "uc1", "u0", "ue1"):
         objs.append(["u", names[n]])
     prims = [NIL, ["b", True], ["b", False], ["n", 0], ["n", 1], ["n", 10], ["n", -3], ["x", "1.5"],
@@ -516,12 +564,16 @@ def obj_cases(world, names, tier, rng, w=1, cases=None):
 
     def add(op, a, gmt=0, tmt=None):
         cases.append({"id": len(cases) + 1, "w": w, "op": op, "a": a, "gmt": gmt, "tmt": tmt or []})
-    for o in vals:
+    for o in vals + chain:
         for k in keys:
             add("GetTable", [o, k])
             for v in newvals:
                 add("SetTable", [o, k, v])
         for f in fields:
+            if o in chain or o[0] in ("t", "u"):
+                # the string-key API path against the generic-key Lua form (and the model)
+                add("GetFieldT", [o, f])
+                add("SetFieldT", [o, f, S("new")])
             add("GetField", [o, f])
             for v in newvals:
                 add("SetField", [o, f, v])
@@ -601,6 +653,7 @@ def kind_of(world, v, coarse=False):
 
 
 OP_GROUP = {"GetTable": "index", "GetField": "index", "SetTable": "newindex", "SetField": "newindex",
+            "GetFieldT": "index", "SetFieldT": "newindex",
             "GetGlobal": "global-index", "SetGlobal": "global-newindex"}
 
 
@@ -616,8 +669,12 @@ def obj_key(world, rec, v):
         ev = S("__index" if OP_GROUP[op] == "index" else "__newindex")
         if o["mt"] and any(kv[0] == ev and kv[1][0] == "s" for kv in world["heap"][o["mt"] - 1]["kv"]) and not o["kv"]:
             kinds[0] = "string"
-    if op in ("SetTable", "SetField", "SetGlobal"):
+    if op in ("SetTable", "SetField", "SetFieldT", "SetGlobal"):
         kinds = kinds[:-1]          # the stored value does not select the path
+    if OP_GROUP.get(op) in ("index", "newindex"):
+        kinds[0] = "object+mt" if kinds[0] in ("table+mt", "userdata+mt") else kinds[0]
+        if v["why"] != "result" and len(kinds) > 1 and kinds[1].startswith("'"):
+            kinds[1] = "string"
     if op in ("GetGlobal", "SetGlobal"):
         kinds = ["gmt=%s" % ("none" if not rec["gmt"] else "handlers")]
     if op in ("GetMetatable", "RawMetatable", "ProtectedSet"):
